@@ -50,7 +50,7 @@ def damage_traces(c, mc, policy, per_trace=250):
             for ci, part in enumerate(chunks(per_size[s], per_trace)):
                 steps = [dict(op="write", fail=[], kind="missing"), dict(op="inspect")]
                 for rec in part:
-                    steps.append(dict(op="damage", kinds=rec["kinds"], fresh=True))
+                    steps.append(dict(op="damage", kinds=rec["kinds"], fresh=True, skippable=True))
                     steps.append(dict(op="read"))
                     ncases += 1
                 traces.append(dict(name="dmg/d%dp%d/s%d/%d" % (d, p, s, ci), d=d, p=p, repair=False, size=s, steps=steps))
@@ -68,7 +68,7 @@ def big_traces(c, mc, configs, n_each):
         for ci, part in enumerate(chunks(pick, 40)):
             steps = [dict(op="write", fail=[], kind="missing"), dict(op="inspect")]
             for rec in part:
-                steps.append(dict(op="damage", kinds=rec["kinds"], fresh=True))
+                steps.append(dict(op="damage", kinds=rec["kinds"], fresh=True, skippable=True))
                 steps.append(dict(op="read"))
             traces.append(dict(name="dmg/d%dp%d/s%d/%d" % (d, p, eb.BIG + 1, ci), d=d, p=p, repair=False,
                                size=eb.BIG + 1, steps=steps))
@@ -102,7 +102,10 @@ def run(c):
         groups = [(small + [(3, 2)], 6), ([(4, 2)], 6)]
         policy = {(1, 1): "all", (2, 1): "all", (2, 2): "all", (3, 2): 2, (4, 2): 1}
         wsizes = 4
-    mc = eb.run_mc(c, groups, coverage=True, workers=c.pick(4, 6))
+    import time
+    t0 = time.time()
+    mc = eb.run_mc(c, groups, coverage=not c.quick, workers=c.pick(4, 6))
+    vlib.log("exhaustive model: %d states, %.1fs" % (mc["states"], time.time() - t0))
     eb.check_coverage(mc["coverage"])
     configs = sorted(policy)
     if not all(mc["cases"].get(k) and mc["writes"].get(k) for k in configs):
@@ -113,11 +116,16 @@ def run(c):
     if not c.quick:
         traces += big_traces(c, mc, [(2, 1), (3, 2), (4, 2)], 120)
     wtraces = write_traces(c, mc, configs, wsizes)
-    got = eb.run_driver(c, binp, traces + wtraces, "c25", workers=8, timeout=c.pick(900, 3000))
+    t0 = time.time()
+    got = eb.run_driver(c, binp, traces + wtraces, "c25", workers=8, timeout=c.pick(900, 3000),
+                        crash_streak_limit=c.pick(40, 300), crash_resample=c.pick(25, 20))
+    vlib.log("driver: %d traces, %d damage cases, %.1fs" % (len(got), ncases, time.time() - t0))
+    t0 = time.time()
 
     reads = sum(1 for _, evs in got for e in evs if e["ev"] == "Read")
     crashes = sum(1 for _, evs in got for e in evs if e["ev"] == "Read" and e["res"] == "crash")
     devs = eb.validate(c, got)
+    vlib.log("trace validation: %d deviation records, %.1fs" % (len(devs), time.time() - t0))
 
     seen = {}
     distinct = set()
